@@ -632,7 +632,9 @@ where
         // All limbs will be bounded by 2^LOG2_BASE except possibly the most significant
         // one, which will be restricted further if LOG2_BASE does not divide nb_bits.
         let mut limb_size_bounds = vec![LOG2_BASE; nb_limbs];
-        *limb_size_bounds.last_mut().unwrap() = (nb_bits - 1).rem(LOG2_BASE) + 1; // msl bound
+        // msl bound (0 bits, i.e. the limb is zero, when nb_bits is 0)
+        *limb_size_bounds.last_mut().unwrap() =
+            nb_bits.saturating_sub(1).rem(LOG2_BASE) + min(nb_bits, 1);
 
         let limbs = value
             .map(|x| big_to_limbs(nb_limbs as u32, &(BigUint::one() << LOG2_BASE), &x))
